@@ -4,6 +4,7 @@ import (
 	"fmt"
 	"go/token"
 	"go/types"
+	"os"
 	"sort"
 	"strings"
 
@@ -997,15 +998,58 @@ func ruleWrapConcat(p *Prog, r *Report) {
 			continue
 		}
 		res := resultsOf(sc)
+		// the write may be delegated to an unexported helper that writes one of its parameters to a file exactly once
+		var delegatedData ssa.Value
+		if len(writes) == 0 {
+			eachInstr(fn, func(b *ssa.BasicBlock, in ssa.Instruction) {
+				ci, ok := in.(ssa.CallInstruction)
+				if !ok {
+					return
+				}
+				if _, isDefer := in.(*ssa.Defer); isDefer {
+					return
+				}
+				h := staticCallee(ci.Common())
+				if h == nil || h == sf || !p.InModule(h) || p.Exported(h) || len(h.Blocks) == 0 {
+					return
+				}
+				var hw []ssa.CallInstruction
+				eachInstr(h, func(b2 *ssa.BasicBlock, i2 ssa.Instruction) {
+					if c2, ok := i2.(ssa.CallInstruction); ok {
+						if _, isDefer := i2.(*ssa.Defer); isDefer {
+							return
+						}
+						if isCallTo(c2.Common(), "(*os.File).WriteString", "(*os.File).Write", "io.WriteString", "os.WriteFile") {
+							hw = append(hw, c2)
+						}
+					}
+				})
+				if len(hw) != 1 || reachableFromSuccs(hw[0].Block())[hw[0].Block()] {
+					return
+				}
+				for j, prm := range h.Params {
+					for _, a := range hw[0].Common().Args {
+						if derivesFrom(a, prm) && j < len(ci.Common().Args) && (isStringType(prm.Type()) || typeStr(prm.Type()) == "[]byte") {
+							writes = append(writes, ci)
+							delegatedData = ci.Common().Args[j]
+						}
+					}
+				}
+			})
+		}
 		if len(writes) != 1 {
 			r.Bad(rule, pr[0], "single file write", pos, fmt.Sprintf("expected exactly one write to the file, found %d", len(writes)))
 			continue
 		}
 		w := writes[0]
 		okv := false
-		for _, a := range w.Common().Args {
-			if res[0] != nil && derivesFrom(a, res[0]) {
-				okv = true
+		if delegatedData != nil {
+			okv = res[0] != nil && derivesFrom(delegatedData, res[0])
+		} else {
+			for _, a := range w.Common().Args {
+				if res[0] != nil && derivesFrom(a, res[0]) {
+					okv = true
+				}
 			}
 		}
 		if okv {
@@ -1022,6 +1066,35 @@ func ruleWrapConcat(p *Prog, r *Report) {
 				r.OK("FWD.param", pr[0], "parameter "+prm.Name(), pos, "forwarded to "+pr[1])
 			} else {
 				r.Bad("FWD.param", pr[0], "parameter "+prm.Name(), pos, "parameter is not forwarded to "+pr[1])
+			}
+		}
+		// the file is created or truncated: what was in it before must not follow the new content
+		var opens []ssa.CallInstruction
+		scanOpen := func(f *ssa.Function) {
+			eachInstr(f, func(b *ssa.BasicBlock, in ssa.Instruction) {
+				if ci, ok := in.(ssa.CallInstruction); ok && isCallTo(ci.Common(), "os.Create", "os.OpenFile", "os.WriteFile") {
+					opens = append(opens, ci)
+				}
+			})
+		}
+		scanOpen(fn)
+		if h := staticCallee(w.Common()); h != nil && p.InModule(h) {
+			scanOpen(h)
+		}
+		if len(opens) != 1 {
+			r.Bad(rule, pr[0], "file created or truncated", pos, fmt.Sprintf("expected one os.Create / os.OpenFile / os.WriteFile, found %d", len(opens)))
+		} else {
+			oc := opens[0].Common()
+			trunc := isCallTo(oc, "os.Create", "os.WriteFile")
+			if isCallTo(oc, "os.OpenFile") {
+				if k, isK := constInt(oc.Args[1]); isK && k&int64(os.O_TRUNC) != 0 && k&int64(os.O_WRONLY|os.O_RDWR) != 0 && k&int64(os.O_APPEND) == 0 {
+					trunc = true
+				}
+			}
+			if trunc {
+				r.OK(rule, pr[0], "file created or truncated", p.Pos(opens[0].Pos()), "opened for writing with truncation")
+			} else {
+				r.Bad(rule, pr[0], "file created or truncated", p.Pos(opens[0].Pos()), "the file is opened without truncation (or for appending): the rest of a longer existing file stays behind the new content and is read back as further documents")
 			}
 		}
 		if errCheckedBefore(errResult(sc), w.Block()) {
